@@ -101,7 +101,7 @@ left its `noerr` loop, `SetReadOnly` returned `ErrClosed`; `Close` (thread 1) is
 def srLeakSt (c : Bool) : St :=
   { ws := [.ret false, .clAcq], tok := true, ehTok := true, cwl := c, closed := true, eh := .exited }
 
-theorem srLeakRun (cfg : Cfg) (hm : cfg.m = .asCoded) (hf : cfg.setReadOnlyReleasesOnClose = false) :
+theorem srLeakRun (cfg : Cfg) (hm : cfg.m = .asCoded cfg.closeSel) (hf : cfg.setReadOnlyReleasesOnClose = false) :
     Steps cfg (init 2) (srLeakSt cfg.srSetsWriteLocking) := by
   have h := Steps.refl (cfg := cfg) (init 2)
   have h := h.step (Step.startSR _ 0 rfl rfl)
